@@ -100,7 +100,8 @@ CLAIMS = {
        "no insert on HashMap<String,String>). NOT covered: console / plain-text output (tolerated order differences are not distinguished "
        "from others), dependence on environment variables, the clock and earlier evaluations in the same process (C12 covers the scopes), "
        "iteration hidden inside dependencies (serde_yaml / indexmap are order-preserving), exit codes (order-free folds: C06). No Kani "
-       "harness serves this property (a HashMap with symbolic keys does not terminate under CBMC).",
+       "harness serves this property (a HashMap with symbolic keys does not terminate under CBMC)."
+       "Added later: every static / thread_local item of the crate is enumerated from the MIR of the current tree; none may be writable after its one-time initialisation (no static mut, no thread_local, no interior mutability inside a static). Degenerate solver part (a finite table), stated as an obligation so the evidence lists the sites; replayed by an isolation battery (two documents of equal shape, one compliant, one not, all built-ins).",
   design="0b/C05"),
  "C06": dict(
   text="Bounded model checking of the two pure exit-code kernels: commands::test::get_exit_code folded over any sequence of <= 4 "
@@ -116,7 +117,8 @@ CLAIMS = {
        "exactly by the case mark and JunitReporter::report turns the totals into update_exit_code(ERROR | FAILURE | nothing); the "
        "--structured parse closure sets the exit code to 5 on a parse error and leaves that file out; `test`'s plain reporter exits 0 / 7 / 1 "
        "by mismatches / unreadable files.",
-  note="Also decided: TestResult::get_exit_code of the structured `test` reporter (error file -> error code; failure code iff some case has a non-empty failed_rules list). NOT covered: --dir mode beyond get_exit_code, files/stdin/clap, main().",
+  note="Also decided: TestResult::get_exit_code of the structured `test` reporter (error file -> error code; failure code iff some case has a non-empty failed_rules list). NOT covered: --dir mode beyond get_exit_code, files/stdin/clap, main()."
+       "Added later: both structured `test` handlers hand get_exit_code only values from {0, 1, 7}; the exit-code replay also has a rules file whose EVALUATION is an error (never 0, never 19) and a comment-only rules file.",
   design="4/C06"),
  "C07": dict(
   text="Wiring of the verdict through every rendering path, decided on MIR (callees modelled, value identities tracked; z3+cvc5): "
@@ -151,7 +153,8 @@ CLAIMS = {
        "every candidate is replayed through the real CLI. Eight genuine C08 defects were found this way and fixed "
        "(known_findings.json: fixed).",
   note="NOT covered: arbitrary bytes through the nom parser and libyaml, recursion depth, the report builder's unreachable!()s, "
-       "operators.rs match_value. K14 stubs values::read_from (forced to fail) and str::trim (identity).",
+       "operators.rs match_value. K14 stubs values::read_from (forced to fail) and str::trim (identity)."
+       "Added later: get_exit_code's match ends in unreachable!(): at both call sites (<= 2 rules files) accumulator and per-file code are one of its three codes.",
   design="4/C08"),
  "C09": dict(
   text="Bounded model checking of the combination rule: FileReport::combine / Status::and over up to 4 parts give FAIL iff some "
@@ -168,7 +171,8 @@ CLAIMS = {
        "FileReport::combine adds each of the other report's three lists whole to the list of the same name (union, independent "
        "of order) and folds the status with Status::and. NOT covered: the text of the messages and the per-shape content of each clause "
        "report, the serialised JSON. KNOWN FINDING (recorded, not repaired): a rule NAME defined several times with different statuses is "
-       "listed in more than one of the three lists.",
+       "listed in more than one of the three lists."
+       "Added later: the report builder's clause reports show the visited record's own from / to values and operator pair; binary_operation records the left / right value of the outcome being reported; the partition replay checks the status implied by the three sets (the property's own sentence) also for rule names defined twice.",
   design="4/C09"),
  "C10": dict(
   text="Bounded symbolic execution (MIR, callees modelled, value identities tracked; z3+cvc5) of the loader -> evaluator conversion "
@@ -185,7 +189,8 @@ CLAIMS = {
        "appends exactly one segment produced by the standard integer formatting). This is the path/position ATTACHMENT step only. NOT covered: "
        "longer / non-ASCII keys, indices >= 100, libyaml marks -> Location, that comparison results and the report builder keep "
        "the values' paths (operators.rs clones, eval_context.rs report builder), unresolved `traversed_to` / `remaining_query`. No Kani "
-       "harness serves this property in the quick tier.",
+       "harness serves this property in the quick tier."
+       "Added later: Loader::handle_scalar_event attaches the scalar's own location (the C11 typing obligation, now also run here, with a YAML replay over every scalar style); clause reports / records keep the outcome's own values (see C09).",
   design="0b/C10"),
  "C11": dict(
   text="Bounded symbolic execution (MIR; std parsers modelled as fallible calls; z3+cvc5) of the loader's scalar typing: "
@@ -202,7 +207,8 @@ CLAIMS = {
   note="This is the typing cascade of the validate loader plus the number arm of the serde loaders. NOT covered: what str::parse::<i64|f64|bool> accept (e.g. `inf`, `nan`, "
        "`+1` are accepted by Rust's parsers), agreement with serde_yaml / serde_json used by `test` and the library API, the content "
        "of the short-form intrinsic tables beyond their shape (every short tag maps to an `Fn::`/`Ref` long form, sequence vs single-value "
-       "sets disjoint), aliases and non-string keys, key/list order, libyaml itself. No Kani harness serves this property.",
+       "sets disjoint), aliases and non-string keys, key/list order, libyaml itself. No Kani harness serves this property."
+       "Added later: at the libyaml boundary the scalar's bytes are from_raw_parts(scalar.value, scalar.length) of the same event (not a C-string reading); replay with embedded NUL characters through validate and test.",
   design="0b/C11"),
  "C12": dict(
   text="Bounded symbolic execution (MIR, callees modelled, value identities tracked; z3+cvc5) of the three validate loops that pair "
@@ -214,7 +220,8 @@ CLAIMS = {
        "document's report, and combining is a list-wise union that does not depend on the order.",
   note="This decides the wiring of the loops (which values reach root_scope / eval_rules_file), i.e. that no evaluation state object is "
        "shared between pairs; it does NOT decide that RootScope holds all mutable state, directory walking / ordering (-a / -m), "
-       "the content of merged input parameters (wiring of the merge is under C17). No Kani harness serves this property.",
+       "the content of merged input parameters (wiring of the merge is under C17). No Kani harness serves this property."
+       "Added later: the process-wide-state enumeration of C05 (nothing outlives one evaluation's scope) with its isolation battery.",
   design="0b/C12"),
  "C13": dict(
   text="Bounded model checking of the comparison kernel: for ALL pairs of i64, ALL pairs of f64 (NaN => not comparable, -0.0 == 0.0), "
@@ -252,7 +259,8 @@ CLAIMS = {
        "indentation, blank lines, trailing spaces, line breaks inside lists / filters, comments, `.n` vs `[n]` at parse level, the implicit "
        "default rule. These appear only in the native replay battery, i.e. they are exercised when some obligation "
        "is refuted, not decided by a solver. No Kani harness serves this property."
-       "Added later: `.n` and `[n]` - the two conversion closures run on ONE shared symbolic i64 literal (second executor's symbols renamed apart, casts with exact wrap-around) build the same QueryPart::Index for every literal; 28 spelling pairs in the native replay, incl. literals >= 2^31.",
+       "Added later: `.n` and `[n]` - the two conversion closures run on ONE shared symbolic i64 literal (second executor's symbols renamed apart, casts with exact wrap-around) build the same QueryPart::Index for every literal; 28 spelling pairs in the native replay, incl. literals >= 2^31."
+       "Added later: rules_file files every top-level line as ONE conjunction entry of the implicit default rule (its `or` alternatives together).",
   design="0b/C14"),
  "C15": dict(
   text="Bounded symbolic execution (MIR, callees modelled, value identities tracked; z3+cvc5) of the resolution machinery: "
@@ -269,7 +277,8 @@ CLAIMS = {
        "give the same verdict additionally needs query traversal, block_scope construction (extract_variables) and the parser's "
        "`[*]` insertion after a leading variable, none of which is examined. The `%var empty` exception is covered under C01/C03 "
        "(k8v harnesses). No Kani harness serves this property."
-       "Added later: scope discipline (which scope guards, bodies and per-value blocks run in; a guarded block's own lets are not visible to its guard), scope delegations, and resolve_function (arguments of built-in calls evaluated in the scope given).",
+       "Added later: scope discipline (which scope guards, bodies and per-value blocks run in; a guarded block's own lets are not visible to its guard), scope delegations, and resolve_function (arguments of built-in calls evaluated in the scope given)."
+       "Added later: extract_variables / block_scope / root_scope (every let under its own name in the table of its kind; cache starts empty), literal and cached answers of resolve_variable, and the exact condition under which `empty` reads the result set.",
   design="0b/C15"),
  "C16": dict(
   text="Bounded model checking of the expectation-matching kernel get_status_result (1..3 definitions x all statuses x all expectations: "
@@ -313,7 +322,8 @@ CLAIMS = {
   note="NOT covered: the characters join produces (only the append sequence is decided; Kani covers 2 members), parse_bool/to_upper/to_lower "
        "(Unicode case tables reachable through heap-held kinds), url_decode, regex_replace, json_parse, parse_epoch, now, string "
        "parsing (`parse::<i64>` on symbolic bytes), dispatch/arity in the parser, results bound to variables."
-       "Added later: resolve_function and its per-argument closure - a literal argument becomes [Literal(v)], a query argument is evaluated in the scope given, a nested call recursively; the function named is called on exactly the folded list; its present results are wrapped as Resolved values in order.",
+       "Added later: resolve_function and its per-argument closure - a literal argument becomes [Literal(v)], a query argument is evaluated in the scope given, a nested call recursively; the function named is called on exactly the folded list; its present results are wrapped as Resolved values in order."
+       "Added later: Kani k16_parse_int_float - parse_int on every finite float below 2^53 truncates toward zero.",
   design="4/C18"),
  "C19": dict(
   text="The part of rulegen that engine B can read (MIR; serde / HashMap / formatting calls modelled; z3+cvc5): print_rules hands the text it "
